@@ -147,6 +147,15 @@ def dimap_family():
             fail("dimap.edit: weight != score change", w=w)
         if Diff.static_check_no_change(rd) and not all(close(a, b) for a, b in zip(new.get_retval(), tr.get_retval())):
             fail("dimap.edit: retdiff NoChange but retval changed")
+    # inner return value untouched (NoChange) while the arguments that `post` reads change
+    kz = gen(lambda mu, sigma: normal(mu, sigma) @ "z")
+    for nm, post in (("args", lambda args, xf, r: r - 2.0 * args[0]), ("xformed", lambda args, xf, r: r - xf[0])):
+        d2 = kz.dimap(pre=lambda off, s: (off * 2.0, s), post=post)
+        t0 = d2.simulate(KEY, (1.0, 1.0))
+        new, w, rd, bwd = d2.edit(KEY, t0, Update(C.empty()), (Diff(3.0, UnknownChange), Diff(1.0, NoChange)))
+        wf(new, f"dimap.edit[post reads {nm}; arguments changed; inner retval unchanged]")
+        if Diff.static_check_no_change(rd) and not close(new.get_retval(), t0.get_retval()):
+            fail(f"dimap.edit[post reads {nm}]: retdiff NoChange but retval changed", old=t0.get_retval(), new=new.get_retval())
 
 
 def switch_family():
@@ -381,6 +390,48 @@ def closure_family():
         fail("closure with kwargs: score is not the density with the keyword merged")
 
 
+def diff_family():
+    """C21: Diff helpers on plain, fully tagged and mixed trees"""
+    import itertools
+    tu = jax.tree_util
+    is_d = lambda x: isinstance(x, Diff)
+
+    def trees(t1, t2):
+        da, db = Diff(1.0, t1), Diff(2.0, t2)
+        yield "leaf", da, 1.0, [t1]
+        yield "tuple", (da, db), (1.0, 2.0), [t1, t2]
+        yield "raw_first", (1.0, db), (1.0, 2.0), [t2]
+        yield "raw_last", (da, 2.0), (1.0, 2.0), [t1]
+        yield "nested", (da, {"x": 2.0, "y": (True, db)}), (1.0, {"x": 2.0, "y": (True, 2.0)}), [t1, t2]
+        yield "dataclass", (Mask(da, True), 2.0), (Mask(1.0, True), 2.0), [t1]
+        yield "plain", (1.0, 2.0), (1.0, 2.0), []
+    same = lambda x, y: tu.tree_structure(x) == tu.tree_structure(y) and all(
+        close(a, b) for a, b in zip(tu.tree_leaves(x), tu.tree_leaves(y)))
+    for t1, t2 in itertools.product((NoChange, UnknownChange), repeat=2):
+        for name, tree, plain, tangents in trees(t1, t2):
+            tags = f"{name}[{type(t1).__name__},{type(t2).__name__}]"
+            allnc = all(t is NoChange for t in tangents)
+            if Diff.static_check_no_change(tree) != allnc:
+                fail("Diff.static_check_no_change is not 'every tangent is NoChange'", tree=tags)
+            if not same(Diff.tree_primal(tree), plain):
+                fail("Diff.tree_primal does not strip exactly the Diff leaves", tree=tags)
+            all_diff = all(is_d(l) for l in tu.tree_leaves(tree, is_leaf=is_d))
+            if Diff.static_check_tree_diff(tree) != all_diff:
+                fail("Diff.static_check_tree_diff is not 'every leaf is a Diff'", tree=tags)
+            for fn, want in ((Diff.no_change, True), (Diff.unknown_change, False)):
+                r = fn(tree)
+                if not same(Diff.tree_primal(r), plain):
+                    fail(f"Diff.{fn.__name__} changes the primal values / structure", tree=tags)
+                if not Diff.static_check_tree_diff(r):
+                    fail(f"Diff.{fn.__name__} does not return a full diff tree", tree=tags)
+                if Diff.static_check_no_change(r) != want:
+                    fail(f"Diff.{fn.__name__} does not tag every leaf", tree=tags, got=Diff.static_check_no_change(r))
+            tg = Diff.tree_tangent(tree)
+            back = Diff.tree_diff(plain, tg)
+            if not (same(Diff.tree_primal(back), plain) and Diff.static_check_no_change(back) == allnc):
+                fail("Diff.tree_diff(tree_primal(t), tree_tangent(t)) does not rebuild t's tags", tree=tags)
+
+
 def mask_algebra_family():
     """C19: truth tables of Mask | ^ ~ build flatten unmask for concrete, array and jit-traced flags"""
     import itertools
@@ -453,7 +504,7 @@ def selection_family():
 
 
 FAMILIES = [
-    (("C19.Mask.", "Mask._or_idx"), mask_algebra_family), (("C18.",), selection_family),
+    (("C19.Mask.", "Mask._or_idx"), mask_algebra_family), (("C18.",), selection_family), ((".Diff.",), diff_family),
     (("MaskCombinator", "MaskTrace"), mask_family), (("Distribution", "ExactDensity"), distribution_family),
     (("Dimap",), dimap_family), (("Switch",), switch_family), (("Vmap", "repeat"), vmap_family),
     (("Scan", "iterate", "accumulate", "reduce", "masked_iterate"), scan_family),
